@@ -17,7 +17,8 @@ META = {
         'the call chain. R2: every attr.ib default whose static type is mutable (list/dict/set/bytearray literal or '
         'constructor, vector object, non-frozen attrs object) must pass through a converter or Factory that builds a '
         'fresh object per instance. R3: taint from the parsable argument of _parse to the constructor arguments of the '
-        'returned object, cleared by bytes()/bytearray()/slicing/Parser(...).'),
+        'returned object, cleared by bytes()/bytearray()/slicing/Parser(...).'
+        ' R2 premise: on every path ArrayBase.__attrs_post_init__ stores a list created in the call.'),
     'assumptions': ['attrs evaluates default=<expr> once at class creation and shares the object between instances',
                     'a converter that is a class builds a new object on every construction'],
     'trusted_base': ['python ast', 'sa.interp effect tracking (Effect nodes)', 'sa.model attrs field tables'],
